@@ -378,6 +378,12 @@ def r8_10(ctx):
         P = [q_ for q_ in (resolve(p_, keep=("width",)) for p_ in en.run()) if _feasible810(q_)]
     except Unsupported as u:
         raise AnalysisError(f"Bar.__rich_console__: statement outside the path normal form ({u}); the width clause cannot be decided")
+    if wdef is not None:
+        from ..astutil import inline as _inl810
+        try:
+            wdef = _inl810(wdef, {k_: v_ for k_, v_ in en.defs.items() if isinstance(v_, ast.AST)})
+        except Exception:
+            pass
     ctx.check(wdef is not None and isinstance(wdef, ast.Call) and norm(wdef.func) == "min" and any(norm(z) == "options.max_width" for z in wdef.args), f.fq, norm(wdef) if wdef is not None else "?", f.where, "bar width capped by options.max_width", "Bar's width is not min(..., options.max_width)")
 
     def one_cell_glyph(e):
